@@ -147,3 +147,6 @@ Theorem disjunction_of_constants_to_enum_ok_or_fuel : forall ss,
   enums_scalar ss = true -> ok_or_fuel' (disjunction_of_constants_to_enum ss) = true.
 Proof. exact docte_ok_or_fuel. Qed.
 Print Assumptions disjunction_of_constants_to_enum_ok_or_fuel.
+Theorem sanitize_enum_member_names_ok_exactly : forall ss, is_ok' (sanitize_enum_member_names ss) = senm_safe_schemas ss.
+Proof. exact sanitize_exact. Qed.
+Print Assumptions sanitize_enum_member_names_ok_exactly.
